@@ -151,9 +151,11 @@ Section Unroll.
   Variable ix : indexer.
   Variables unicode utf16 : bool.
   Variable h : hay.
+  Variable okp : nat -> Prop.
   Notation IR := (ir_results ix unicode utf16 h).
-  Notation ref := (ref ix unicode utf16 h).
-  Notation PRel := (PRel ix unicode utf16 h).
+  Notation ref := (ref ix unicode utf16 h okp).
+  Notation al := (al ix unicode utf16 h okp).
+  Notation PRel := (PRel ix unicode utf16 h okp).
 
   Definition unroll_tail (body : node) (mn : N) (mx : option N) (g : bool) (egs ege : nat) : list node :=
     let mx' := option_map (fun v => v - mn) mx in
@@ -206,7 +208,7 @@ Section Unroll.
     ref fwd (NLoop body mn mx g egs ege) (NCat (repeat body (N.to_nat mn) ++ unroll_tail body mn mx g egs ege)).
   Proof.
     intros Hz Hmm H5. split; [|apply rstep_nol1; reflexivity].
-    exists 4%nat. intros [|f] Hf x r E; [discriminate|]. exists r. split; [|apply dd_refl].
+    exists 4%nat. intros [|f] Hf x r _ E; [discriminate|]. exists r. split; [|apply dd_refl].
     unfold fuel_ok in Hf. assert (Hb : mn + N.of_nat f < USIZE_MAX) by lia.
     eapply (ir_fuel_mono ix unicode utf16 h (S (S f)) (S f + 4)); [lia|].
     rewrite ir_cat_eq. rewrite ir_loop_eq in E.
@@ -225,15 +227,17 @@ Section Unroll.
     inversion E; subst. cbn [act_node]. rewrite (dup_n_repeat _ _ _ Ed).
     apply orb_false_iff in Hth as [Hm0 Hm5]. apply N.eqb_neq in Hm0. apply N.ltb_ge in Hm5.
     unfold LOOP_UNROLL_THRESHOLD in Hm5. apply Nat.ltb_ge in Hg.
-    intro Hq. cbn [qok] in Hq. apply andb_true_iff in Hq as [Hq1 Hq3]. apply andb_true_iff in Hq1 as [Hq1 Hq2].
-    apply N.leb_le in Hq2. apply Nat.eqb_eq in Hq3.
+    intros Hq Ha. cbn [qok] in Hq. apply andb_true_iff in Hq as [Hq1 Hq3]. apply andb_true_iff in Hq1 as [Hq1 Hq2].
+    apply N.leb_le in Hq2. apply Nat.eqb_eq in Hq3. cbn [OptMono.al] in Ha.
     assert (Hz : (ege - egs = 0)%nat) by lia. assert (Hng : ng n = 0%nat) by lia.
     split; [apply (ref_unroll (negb lb) n min max greedy egs ege Hz Hq2 Hm5)|].
     fold (unroll_tail n min max greedy egs ege). unfold unroll_tail.
-    split.
+    split; [|split].
     - cbn [qok]. rewrite forallb_app, (forallb_repeat qok n Hq1), andb_true_l.
       destruct (option_map (fun v => v - min) max) as [[|vp]|]; [reflexivity| |];
         cbn [forallb qok]; rewrite Hq1, Hz, Hng; cbn; reflexivity.
+    - apply al_cat. apply Forall_app. split; [apply Forall_forall; intros y Hy; apply repeat_spec in Hy; subst y; exact Ha|].
+      destruct (option_map (fun v => v - min) max) as [[|vp]|]; constructor; try constructor; exact Ha.
     - cbn [ng]. rewrite map_app, list_sum_app, (ng_repeat n Hng).
       destruct (option_map (fun v => v - min) max) as [[|vp]|]; cbn [map list_sum fold_right ng]; lia.
   Qed.
